@@ -9,6 +9,7 @@ import (
 	"sort"
 	"strconv"
 	"strings"
+	"sync"
 	"time"
 )
 
@@ -257,6 +258,11 @@ func (e *Engine) runProperty(prop, tier string, budget int) *checkOutcome {
 	// syntactic scans that several properties lean on
 	out.obls = append(out.obls, e.scanObligations(prop)...)
 	solveAll(out.obls, budget)
+	type pending struct {
+		v violation
+		o *Oblig
+	}
+	var pend []*pending
 	for _, o := range out.obls {
 		if o.Res.Status == o.Expect {
 			continue
@@ -272,8 +278,27 @@ func (e *Engine) runProperty(prop, tier string, budget int) *checkOutcome {
 			continue
 		}
 		v := violation{obl: o.Name, reason: fmt.Sprintf("obligation not discharged (%s by %s): %s", o.Res.Status, o.Res.Solver, o.Text)}
-		v.replay, v.noIn = e.tryReplay(prop, o)
-		out.violations = append(out.violations, v)
+		pend = append(pend, &pending{v: v, o: o})
+	}
+	// replays run in parallel, at most 8 at a time, and only for the first 12 failures
+	var wg sync.WaitGroup
+	sem := make(chan struct{}, 8)
+	for i, p := range pend {
+		if i >= 12 {
+			p.v.replay, p.v.noIn = "", true
+			continue
+		}
+		wg.Add(1)
+		sem <- struct{}{}
+		go func(p *pending) {
+			defer wg.Done()
+			defer func() { <-sem }()
+			p.v.replay, p.v.noIn = e.tryReplay(prop, p.o)
+		}(p)
+	}
+	wg.Wait()
+	for _, p := range pend {
+		out.violations = append(out.violations, p.v)
 	}
 	return out
 }
